@@ -28,6 +28,8 @@ EXPLANATION = (
     "updated only on the load-increase branch, the minimum on the other, both against the current point's strain.")
 EXPLANATION += (' R-C05-7: visited strains are one list split at a counter; every append is followed by `if run_index == 1: counter += 1`, the counter changes nowhere else, the accessors return [:counter] and [counter:]. R-C05-8: a decision taken on the first assessment point and applied to all points compares loads or sample positions only (proportional histories order loads alike at every point); any first-point comparison of stresses or strains is a violation - they are nonlinear in the load factor, and with a binned law even the two ends of one branch can tie at one point and differ at another. R-C05-9: chunk-relative positions (global position minus head index before the chunk); the repair of a turning point lying in the carried tail is guarded by a complete sign test (< 0), and the stored sample is the last load step of the chunk.')
 EXPLANATION += (' R-C05-10: the HCM case decisions compare loads and load ranges exactly up to a fixed absolute round-off guard (a literal <= 1e-9); relative tolerances (np.isclose, rounding) in a decision are violations.')
+EXPLANATION += (' R-C05-11: nothing cached on the FKM-nonlinear recorder or detector survives a later recording call (memo rule).')
+EXPLANATION += (' R-C05-12: the per-point look-up tables of the binned law keep the row order they were built in (shared with R-C07-8).')
 ASSUMPTIONS = ["pd.concat([a, b]) appends b after a"]
 
 LISTS = ["_loads_min", "_loads_max", "_S_min", "_S_max", "_epsilon_min", "_epsilon_max", "_epsilon_min_LF",
@@ -35,7 +37,7 @@ LISTS = ["_loads_min", "_loads_max", "_S_min", "_S_max", "_epsilon_min", "_epsil
 
 
 def run(ctx):
-    for r in (_r1, _r2, _r3, _r4, _r5, _r6, _r7, _r8, _r9, _r10):
+    for r in (_r1, _r2, _r3, _r4, _r5, _r6, _r7, _r8, _r9, _r10, _r11, _r12):
         ctx.attempt(r)
 
 
@@ -553,12 +555,13 @@ def _r9(ctx):
         ctx.violated(f, ls[0] if ls else f.node, "the sample kept for the next chunk is not the last load step of this chunk", text="last sample")
 
 
-def _r10(ctx):
+def _r10(ctx, own_rule=True):
     """The HCM case decisions compare loads and load ranges exactly, up to a fixed absolute round-off guard (a literal of at
     most 1e-9 added or subtracted).  A relative tolerance (np.isclose / allclose, rounding) treats ranges that differ in the
     fifth significant digit as equal and so closes hystereses the guideline procedure leaves open (or vice versa)."""
     prog = ctx.prog
-    ctx.rule("R-C05-10", floor=3, what="HCM decisions compare loads exactly up to a fixed absolute round-off guard; no relative tolerances")
+    if own_rule:
+        ctx.rule("R-C05-10", floor=3, what="HCM decisions compare loads exactly up to a fixed absolute round-off guard; no relative tolerances")
     ci = prog.cls(D[:-1])
     n = 0
     for name, fs in ci.methods.items():
@@ -589,6 +592,25 @@ def _r10(ctx):
                                              (f.name, norm_text(cmp_), eps), text=norm_text(cmp_))
     if n == 0:
         raise AnalysisError("no guarded load comparison found in the HCM case analysis")
+
+
+def _r12(ctx):
+    """The binned law the detector evaluates pairs the rows of its per-point tables with the points of a load step by
+    position: the tables must keep the row order in which they were built (shared with R-C07-8)."""
+    from .c07 import tables_fixed
+    prog = ctx.prog
+    ctx.rule("R-C05-12", floor=4, what="look-up tables of the binned law are never re-ordered after construction (shared with R-C07-8)")
+    tables_fixed(ctx, prog.cls("pylife.materiallaws.notch_approximation_law:Binned"))
+
+
+def _r11(ctx):
+    """The recorded collective is a function of everything recorded so far: nothing cached on the recorder or the detector
+    survives a later record_* / process call (memo rule), so reading the collective between two passes or chunks does not
+    freeze it."""
+    from .. import memo
+    prog = ctx.prog
+    ctx.rule("R-C05-11", floor=1, what="recorder/detector caches are invalidated by every recording call")
+    memo.run_rule(ctx, classes=[prog.cls(REC), prog.cls(D[:-1]), prog.cls("pylife.stress.rainflow.general:AbstractRecorder")])
 
 
 def _elem0(e):
@@ -707,6 +729,18 @@ C = "FKMNonlinearDetector."
 
 def variants():
     out = []
+
+    def memo_collective(tree):
+        f = find_func(tree, "FKMNonlinearRecorder.collective")
+        cls = f._parent
+        f.name = "_assemble_collective"
+        f.decorator_list = []
+        cls.body.append(parse_stmt("@property\ndef collective(self):\n    if self._collective is None:\n"
+                                   "        self._collective = self._assemble_collective()\n    return self._collective.copy()"))
+        init = find_func(tree, "FKMNonlinearRecorder.__init__")
+        init.body.append(parse_stmt("self._collective = None"))
+        return True
+    out.append(witness("collective memoised and never invalidated", RP, memo_collective, "R-C05-11"))
 
     def isclose_extent(tree):
         f = find_func(tree, C + "_hcm_process_sample")
